@@ -158,6 +158,8 @@ def _sym(I, st, tyd, name, depth):
             return VNat(Poly.atom(name))
         if last in ("Index", "Type", "Slice"):
             return VSeq(leaf(name))
+        if last == "Object" and SELF_KIND[0] == "strict-oh":
+            return VRec(SEMI, {"0": VSeq(leaf(name + ".0"))})
         return VUser(name)
     if k == "param" and tyd["name"] == "Self" and SELF_KIND[0] == "array":
         return VSeq(leaf(name))
@@ -237,4 +239,14 @@ def call_override(I, fn, vals, st, fr, e):
             s_yes = st.copy()
             s_yes.add_bound(table.t, target.p)
             return [(s_no, NONE, None), (s_yes, some(v), None)]
+    if fn["path"].endswith("strict::functor::traits::define_map_arrow") and fr.fn is not None:
+        F = vals[0]
+        while isinstance(F, VMutRef):
+            F = I.read_place(st, F.place)
+        if isinstance(F, VRec) and F.ty.endswith("strict::functor::optic::Optic"):
+            # The optic's own object/operation maps are checked against their typing separately
+            # (map_object, map_operations, adapt); that they form a functor is not decided.
+            import contracts
+            contracts.use(I, "A_OF")
+            return contracts.h_map_arrow(I, st, fr, e, None, [VUser("Optic"), vals[1]])
     return None
